@@ -307,6 +307,7 @@ void ThreadPool::threadProc(ThreadToken thread_token)
 
     while (true) {
         Task* item = nullptr;
+        CPP_TBOX_VERIF_POINT("tp.w.loop", thread_token.id(), 0);
         {
             std::unique_lock<std::mutex> lk(d_->lock);
             CPP_TBOX_VERIF_POINT("tp.w.top", thread_token.id(), 0);
@@ -393,6 +394,7 @@ void ThreadPool::threadProc(ThreadToken thread_token)
                 d_->wp_loop->runInLoop(item->main_cb, "ThreadPool::threadProc, invoke main_cb");
             }
 
+            CPP_TBOX_VERIF_POINT("tp.w.pre_erase", thread_token.id(), item->token.id());
             {
                 std::lock_guard<std::mutex> lg(d_->lock);
                 d_->doing_tasks_token.erase(item->token);
